@@ -887,9 +887,9 @@ fn kf_tags(i: &Input, res: Option<&BlockTranslationResult>) -> Vec<String> {
                 if h.op == 0x8e {
                     add("kf:x86-mov-sreg-width");
                 }
-                // Branch target narrower / wider than the address width: call rel16 (66 e8), x86 call/jmp r/m16
+                // Branch target narrower / wider than the address width: call rel16/rel32 with 66 or REX.W (66 e8, 48 e8), x86 call/jmp r/m16
                 // (66 ff /2, 66 ff /4), x86 jmp far m16:32 (ff /5, memory form)
-                if (h.op == 0xe8 && h.p66)
+                if (h.op == 0xe8 && (h.p66 || h.rex_w))
                     || (i.tr == 0 && h.op == 0xff && h.p66 && matches!(reg, Some(2) | Some(4)))
                     || (i.tr == 0 && h.op == 0xff && mem && reg == Some(5))
                 {
